@@ -329,6 +329,9 @@ func (e *engine) runBattery(fail func(string, ...any), b []bstmt) []string {
 	return out
 }
 
+// dynamicPrivs are the dynamic (global-only) privileges the engine knows.
+var dynamicPrivs = []string{"REPLICATION_SLAVE_ADMIN", "CLONE_ADMIN"} // the two that GRANT/REVOKE accept (sql/plan/grant_data.go)
+
 func TestC41(t *testing.T) {
 	st := stats.New("C41", "")
 	defer st.Flush()
@@ -382,6 +385,33 @@ func TestC41(t *testing.T) {
 			}
 			m.Apply(op)
 			st.Class("op:" + op.Kind.String())
+		}
+		// dynamic privileges (global only; not part of the privilege model, so they are decided by the
+		// original-vs-loaded differential alone): each holder gets 0–4 of them with independently drawn
+		// WITH GRANT OPTION flags, and some are revoked again
+		if len(m.Accts) > 0 && rapid.IntRange(0, 2).Draw(rt, "dynamicPrivs") > 0 {
+			holders := make([]pm.Acct, 0, len(m.Accts))
+			for _, a := range m.Accts {
+				holders = append(holders, a.Acct)
+			}
+			sort.Slice(holders, func(i, j int) bool { return holders[i].String() < holders[j].String() })
+			k := rapid.IntRange(1, 6).Draw(rt, "dynamicStmts")
+			for i := 0; i < k; i++ {
+				h := rapid.SampledFrom(holders).Draw(rt, "dynHolder")
+				pr := rapid.SampledFrom(dynamicPrivs).Draw(rt, "dynPriv")
+				q := "GRANT " + pr + " ON *.* TO " + h.SQL()
+				switch rapid.IntRange(0, 3).Draw(rt, "dynForm") {
+				case 0:
+					q += " WITH GRANT OPTION"
+				case 1:
+					q = "REVOKE " + pr + " ON *.* FROM " + h.SQL()
+				}
+				history = append(history, q)
+				if r := A.root.Exec(q); !r.OK() {
+					fail("valid account statement failed as root: %s -> %s\n%s", q, r, r.Stack)
+				}
+				st.Class("op:dynamic-privilege")
+			}
 		}
 		if A.cap.calls == 0 {
 			fail("the persister was never called")
